@@ -422,7 +422,7 @@ def gen_history(rng, n_ops, variants, pool):
         elif x < 0.80:
             types = rng.choice([[2], [1], [16], [2, 16], [1, 2, 16, 14, 3, 20], [14], [], [2, 99], [0]])
             prio = rng.choice([None, None, None, 0, 1, 255, 256, -1])
-            order = None if rng.random() < 0.95 else "!"
+            order = rng.choice([None] * 18 + ["!", {"kind": "U", "keys": []}, {"kind": "L", "keys": []}])
             flt = None if rng.random() < 0.97 else "!"
             ops.append(["req", app, types, prio, order, flt])
         elif x < 0.86:
@@ -492,7 +492,7 @@ def run(ctx):
     ctx.cover("corpus_cases", len(hists))
     hists += [(f"boundary:{i}", h) for i, h in enumerate(boundary_histories(variants))]
     pool = [L.ser(L.make_message(ctx.rng, k, o)) for k in ("cam", "vam", "denm") for o in (False, True)]
-    n_hist = ctx.scale(220, 6000)
+    n_hist = ctx.scale(200, 8000)
     for i in range(n_hist):
         n_ops = ctx.rng.choice([12, 30, 60, 120] if not ctx.thorough else [12, 30, 60, 120, 250, 400])
         hists.append((f"random:{i}", gen_history(ctx.rng, n_ops, variants, pool)))
